@@ -7,14 +7,21 @@ spec = importlib.util.spec_from_file_location('c20proofs', os.path.join(here, '.
 c20 = importlib.util.module_from_spec(spec)
 spec.loader.exec_module(c20)
 NEED_OPTIONS = True
-PROOFS = [p for p in c20.all_proofs() if p.name == 'too_big_for_nl_max']
-EXPLANATION = ('Kernel of C16 (cross-option consistency half): too_big_for_nl_max() returns normally only if every blank-line count option of the registry is <= nl_max, '
-               'prints nothing in that case, and otherwise names an option and exits with EX_CONFIG.')
-K = ['K4 too_big_for_nl_max']
-G = ['BoundedOption::validate, read_number, read_enum (class templates with friends, std::string): contracts designed in DESIGN.md, not yet enforced',
+sys.path.insert(0, here)
+import opt_proofs  # noqa: E402
+PROOFS = [p for p in c20.all_proofs() if p.name == 'too_big_for_nl_max'] + opt_proofs.all_proofs()
+EXPLANATION = ('Kernel of C16. Value readers: BoundedOption::validate accepts exactly [min, max] and emits one diagnostic otherwise; read_number<signed/unsigned> and '
+               'Option<bool>::read either reject the text (at least one diagnostic, the option exactly as before) or accept it (no diagnostic; the value stored is the '
+               'number written - no truncation -, or plus/minus the value of the referenced numeric option, and lies inside the documented range); every pointer handed '
+               'to the registry lookup and to the diagnostic stays inside the value text (memory safety for every text, including the empty one). Cross-option '
+               'consistency: too_big_for_nl_max() returns normally only if every blank-line count option of the registry is <= nl_max and otherwise exits with EX_CONFIG.')
+K = ['K1 BoundedOption::validate / Option::validate', 'K2 read_number<signed>, read_number<unsigned>: assign only on success, value == text, in range, diagnostics', 'K3 Option<bool>::read', 'K4 too_big_for_nl_max']
+G = ['the class templates Option<T> / BoundedOption<T,min,max> are represented by the shells of env/option_stub.h (min/max as arbitrary data members lo <= hi, virtual dispatch as a two-way branch); only the sliced function bodies are real',
+     'libc strtol is a trusted model (value + end of the numeral prefix, ERANGE clipping); find_option returns "no option" or an arbitrary option whose name starts with a letter',
+     'read_enum<T> (iarf / line_end / token_pos values): convert_string tables are proved under C15; the reference branch is not under contract',
      'process_option_line / load_option_file (unknown option => diagnostic, no effect), include cycles, over-long lines: NOT covered',
      'main() calls too_big_for_nl_max() iff nl_max > 0 before any source is read']
 
 sys.path.insert(0, os.path.join(os.path.dirname(os.path.abspath(__file__)), '..', '..', 'tools'))
 import replay_lib  # noqa: E402
-REPLAY = replay_lib.make_replay(replay_lib.scenario_too_big)
+REPLAY = replay_lib.make_replay(replay_lib.scenario_bad_numbers, replay_lib.scenario_too_big)
